@@ -7,6 +7,7 @@ from paths import enum_paths
 SAT_RE = re.compile(r"msg::msm\w+_sat::msm\w+_sat::encode")
 SIG_RE = re.compile(r"msg::msg1\d{3}::msg1\d{3}_sig::encode")
 SORTS = ("core::slice::<impl [T]>::sort_unstable_by", "core::slice::<impl [T]>::sort_by")
+SORTS_KEY = ("core::slice::<impl [T]>::sort_unstable_by_key", "core::slice::<impl [T]>::sort_by_key")
 U8CMP = "core::cmp::impls::<impl core::cmp::Ord for u8>::cmp"
 
 
@@ -76,7 +77,7 @@ def _sort_rule(prog, res, f, keys):
     names = fa.names
     tag = f.path
     fields = _elem_fields(prog, f)
-    sorts = [(b, t) for b, t in f.calls() if callee_of(t) in SORTS]
+    sorts = [(b, t) for b, t in f.calls() if callee_of(t) in SORTS or callee_of(t) in SORTS_KEY]
     res.ob("S-sort", "%s | exactly one sort call" % tag, len(sorts) == 1, "found %d" % len(sorts), f.loc)
     if len(sorts) != 1 or fields is None:
         return
@@ -128,7 +129,21 @@ def _sort_rule(prog, res, f, keys):
     cmp = a[1]
     okk = False
     d = show(cmp, names)
-    if cmp.op == "closure" and cmp.args[0] in prog.fns:
+    if callee_of(st) in SORTS_KEY and cmp.op == "closure" and cmp.args[0] in prog.fns:
+        # sort_by_key(|e| key(e)) orders by key(a).cmp(&key(b)); for integer fields and tuples of Ord fields that is the field-wise order
+        kf = prog.fn(cmp.args[0])
+        kfa = FA(kf, prog)
+        rets = kf.return_blocks()
+        if len(rets) == 1:
+            rv = kfa.end_val(0, rets[0])
+            parts = list(rv.args[0]) if rv.op == "tuple" else [rv]
+            got = []
+            for p_ in parts:
+                n_, i_ = _field_of_arg(p_, fields)
+                got.append(fields[i_] if n_ == 2 and i_ is not None else None)
+            okk = tuple(got) == tuple(keys)
+            d = "key = (%s)" % ", ".join(str(g) for g in got)
+    elif cmp.op == "closure" and cmp.args[0] in prog.fns:
         cm = comparator_model(prog, cmp.args[0])
         if cm is not None:
             cfa, paths = cm
@@ -199,13 +214,21 @@ def _check_comparator(prog, cfa, paths, fields, keys):
         return ok, show(paths[0][1], names) if paths else ""
     # two keys: switch on u8::cmp(a.sat, b.sat): Less->Less, Greater->Greater, Equal->SigId::cmp(a.sig, b.sig)
     got = {}
+    first = None
     for facts, rv in paths:
         key = None
         for t, (k, v) in facts.items():
-            if t.op == "discr" and cmp_on(t.args[0], "satellite_id", is_u8) and k == "eq":
-                key = v
+            if t.op == "discr" and cmp_on(t.args[0], "satellite_id", is_u8):
+                first = t.args[0]
+                if k == "eq":
+                    key = v
+                elif k == "ne" and 0 in v:
+                    key = "ne0"          # `match o { Equal => .., other => other }`: one arm for both Less and Greater
         got[key] = rv
-    less = [k for k in got if k not in (0, 1, None)]
+    less = [k for k in got if k not in (0, 1, None, "ne0")]
     ok = len(got) == 3 and len(less) == 1 and got[less[0]].op == "agg" and got[less[0]].args[2] == "Less" \
         and 1 in got and got[1].op == "agg" and got[1].args[2] == "Greater" and 0 in got and cmp_on(got[0], "signal_id", is_sig)
+    if not ok and first is not None and set(got) == {0, "ne0"}:
+        # a.sat.cmp(&b.sat).then_with(|| a.sig.cmp(&b.sig)), desugared: the first comparison is returned unchanged unless it is Equal
+        ok = got["ne0"] is first and cmp_on(got[0], "signal_id", is_sig)
     return ok, "; ".join("%s -> %s" % (k, show(v, names)) for k, v in got.items())
